@@ -290,7 +290,12 @@ impl<'tcx> JSFormatter<'tcx> {
     }
 
     pub fn fmt_param_name<'a>(&self, param_name: &'a str) -> Cow<'a, str> {
-        param_name.to_lower_camel_case().into()
+        let name = param_name.to_lower_camel_case();
+        if RESERVED.contains(&&*name) {
+            format!("{name}_").into()
+        } else {
+            name.into()
+        }
     }
 
     pub fn fmt_lifetime_edge_array(
